@@ -13,7 +13,7 @@ from ..flow import Enumerator, RETURN, fmt
 from ..symx import Expander, TupleV
 from ..anf import R, Unsupported
 from .. import anf, fsm
-from .common import path_statements, path_statements_all, dtype_hazard_obligations, struct_ob, formula_ob, guard, last_return, U
+from .common import as_augassign, path_statements, path_statements_all, dtype_hazard_obligations, struct_ob, formula_ob, guard, last_return, U
 from . import mcmc
 from ..report import AnalysisError
 from ..term import Resolver, pmatch, find_all, abstract, anf_of
@@ -239,11 +239,20 @@ def _probe_inside(fn, name, base):
     mods = [n for n in ast.walk(fn) if isinstance(n, (ast.AugAssign, ast.Assign))
             and any(isinstance(t, ast.Subscript) and isinstance(t.value, ast.Name) and t.value.id == name
                     for t in ([n.target] if isinstance(n, ast.AugAssign) else n.targets))]
-    if len(mods) != 1 or not (isinstance(mods[0], ast.AugAssign) and isinstance(mods[0].op, ast.Add)
-                              and isinstance(mods[0].value, ast.Name)):
+    # `probe[i] = base[i] + h` on a copy of base is the update `probe[i] += h`
+    step = None
+    if len(mods) == 1 and isinstance(mods[0], ast.Assign) and len(mods[0].targets) == 1 and isinstance(mods[0].value, ast.BinOp) \
+            and isinstance(mods[0].value.op, ast.Add):
+        tg = mods[0].targets[0]
+        l_, r_ = mods[0].value.left, mods[0].value.right
+        for a_, b_ in ((l_, r_), (r_, l_)):
+            if U(a_) == f"{base}[{U(tg.slice)}]" and isinstance(b_, ast.Name):
+                step = b_.id
+    if len(mods) != 1 or not (step is not None or (isinstance(mods[0], ast.AugAssign) and isinstance(mods[0].op, ast.Add)
+                                                   and isinstance(mods[0].value, ast.Name))):
         return False, f"probe `{name}` is modified by {[U(m) for m in mods]}"
-    h = mods[0].value.id
-    idx = U(mods[0].target.slice)
+    h = step if step is not None else mods[0].value.id
+    idx = U((mods[0].targets[0] if step is not None else mods[0].target).slice)
     # the statements executed before the probe is moved, in the bounded configuration (self.bounds is not None), whatever the
     # spelling of the configuration test (guarded overwrite, if / else, early default)
     def block_of(body):
@@ -303,6 +312,7 @@ def _reflect_order(c, fn, unroll):
 
     def classify(node):
         ev = []
+        node = as_augassign(node)
         if isinstance(node, ast.AugAssign) and isinstance(node.target, ast.Name):
             if node.target.id == t and isinstance(node.op, ast.Add):
                 ev.append(("DRIFT", node.lineno, ""))
@@ -468,6 +478,44 @@ def _fold_forms(prog):
     return out
 
 
+def _inside_all_coordinates(terms, th):
+    """The returned term says: for EVERY coordinate lower <= theta and theta <= upper - as one reduced conjunction
+    `((t >= lo) & (t <= up)).all()`, as two reductions joined by `and`, with either operand order or a chained comparison."""
+    if len(terms) != 1:
+        return False
+    facts = set()
+
+    def cmp_facts(e):
+        if not isinstance(e, ast.Compare):
+            return False
+        sides = [e.left] + list(e.comparators)
+        for op, a, b in zip(e.ops, sides, sides[1:]):
+            a_, b_ = U(a), U(b)
+            if isinstance(op, ast.GtE):
+                a_, b_, op = b_, a_, ast.LtE()
+            if not isinstance(op, ast.LtE):
+                return False
+            facts.add((a_, b_))          # a_ <= b_
+        return True
+
+    def elementwise(e):
+        if isinstance(e, ast.BinOp) and isinstance(e.op, ast.BitAnd):
+            return elementwise(e.left) and elementwise(e.right)
+        if isinstance(e, ast.Call) and U(e.func) == "logical_and" and len(e.args) == 2:
+            return elementwise(e.args[0]) and elementwise(e.args[1])
+        return cmp_facts(e)
+
+    def reduced(e):
+        if isinstance(e, ast.BoolOp) and isinstance(e.op, ast.And):
+            return all(reduced(v) for v in e.values)
+        if isinstance(e, ast.Call) and isinstance(e.func, ast.Attribute) and e.func.attr == "all" and not e.args:
+            return elementwise(e.func.value)
+        if isinstance(e, ast.Call) and U(e.func) in ("all", "bool") and len(e.args) == 1:
+            return reduced(e.args[0]) if U(e.func) == "bool" else elementwise(e.args[0])
+        return False
+    return reduced(terms[0]) and facts == {("self.lower", th), (th, "self.upper")}
+
+
 def _start_validated(prog):
     out = []
     for cname, stored in (("PcaChain", "self.get_last()"), ("HamiltonianChain", "start"), ("EnsembleSampler", "v")):
@@ -506,7 +554,7 @@ def _start_validated(prog):
     ok = (v is not None and ins is not None
           and any(isinstance(s, ast.If) and U(s.test) == f"not self.inside({v.args.args[1].arg})"
                   and any(isinstance(b, ast.Raise) for b in s.body) for s in v.body)
-          and U(last_return(ins).value) == f"((theta >= self.lower) & (theta <= self.upper)).all()")
+          and _inside_all_coordinates(Resolver(ins).return_terms(), ins.args.args[1].arg))
     out.append(struct_ob("start-validated", qual(bc, v), ok,
                          "validate_start_point must raise unless lower <= start <= upper for every coordinate", UTIL, v.lineno))
     return out
